@@ -624,6 +624,9 @@ def bounded_paths(tier, seed):
         F = rng.uniform(0.0, 3.0, size=shape).round(3)
         blocked = rng.random(shape) < 0.2
         F[blocked] = 1.7976931348623157e308
+        if c % 2 == 0:
+            F[rng.random(shape) < 0.3] = 0.0  # exactly-zero free energy (the most probable voxel of a single-site density)
+            F[blocked] = 1.7976931348623157e308
         idxs = list(np.ndindex(*shape))
         s = idxs[int(rng.integers(len(idxs)))]
         t = idxs[int(rng.integers(len(idxs)))]
